@@ -338,6 +338,13 @@ func c14Case(env *Env, tape *sim.Tape) *CaseOut {
 	out.Key = HashOf(di, embed, trunc, entry, fk, kw, kr, useBytes, st.TraceHash)
 	out.TraceHash = st.TraceHash
 	out.Digest = HashOf(op.Out, errText(op.Err), errText(op.CloseErr))
+	if isCmd && fired {
+		// a real child process: which of two injected failures it meets first (its stdin
+		// closed, its stdout gone) and how much it had written by then is decided by the
+		// operating system, not by the tape; the property asks for a non-nil error only, and
+		// only that is part of what must repeat from process to process
+		out.Digest = HashOf("cmd", op.Err != nil, op.CloseErr != nil)
+	}
 	if trunc >= 0 {
 		out.stat("probe_truncated_document", 1)
 	}
